@@ -142,7 +142,10 @@ def s2(chk: Check, proj: Project) -> None:
             if gives:
                 chk.undecided("S2", f"finders:ComponentsFileSystemFinder.{st.name}", m.loc(st), "new finder method that returns/yields values: does it expose paths without the filter?")
     mf, ff = proj.func("finders", "ComponentsFileSystemFinder.find")
-    okf = all(isinstance(a[1], ast.Call) and last_attr(a[1].func) == "find_location" for a in assignments(ff, "matched_path")) and bool(assignments(ff, "matched_path"))
+    returned = {norm(r.value) for r in stmts(ff) if isinstance(r, ast.Return) and isinstance(r.value, ast.Name)}
+    lists = {norm(c.func.value) for c in calls(ff, "append")} & returned  # type: ignore[union-attr]
+    gives = (returned - lists) | {norm(c.args[0]) for c in calls(ff, "append") if c.args and isinstance(c.args[0], ast.Name) and norm(c.func.value) in lists}  # type: ignore[union-attr]
+    okf = bool(gives) and all(assignments(ff, g) and all(isinstance(a[1], ast.Call) and last_attr(a[1].func) == "find_location" for a in assignments(ff, g)) for g in gives)
     chk.ob("S2", "finders:find:through-find_location", mf.loc(ff), okf, "find() only returns what find_location returned")
 
 
